@@ -114,9 +114,9 @@ def curve_text(c):
         '; '.join('(%s, %s)' % (perm(q[0]), perm(q[1])) for q in c.permeances))
 
 
-def random_curve(rng):
+def random_curve(rng, m=None):
     from pyvaporation.diffusion_curve import DiffusionCurve
-    m = rng.choice(gens.builtin_mixtures())
+    m = m or rng.choice(gens.builtin_mixtures())
     n = rng.randint(1, 5)
     ctype = rng.choice(['weight', 'molar'])
     mixed = rng.random() < 0.35       # every point carries its own basis
@@ -196,6 +196,55 @@ def curve_items(rng, tmp, ncases, items, samples, dist):
         dist[key] = dist.get(key, 0) + 1
         if sum(1 for s_ in samples if s_.get('kind') == 'curve') < 1:
             samples.append({'kind': 'curve', **info, 'first_csv_line': lines[0]})
+
+
+def set_items(rng, tmp, ncases, items, samples, dist):
+    """a curve-set file holding several curves (2-4 curves saved by DiffusionCurve.save, re-labelled with distinct numeric
+    identifiers in arbitrary order, their lines shuffled together) -> DiffusionCurveSet.load, against load_set of the model:
+    same number of curves, ascending identifier order, each curve from its own lines in file order"""
+    from pyvaporation.diffusion_curve import DiffusionCurveSet
+    from pyvaporation.diffusion_curve.diffusion_curve import DC_SET_COLUMNS
+    for k in range(ncases):
+        m = rng.choice(gens.builtin_mixtures())
+        ncur = rng.randint(2, 4)
+        ids = rng.sample(range(0, 60), ncur)
+        rows = []
+        try:
+            for ci in range(ncur):
+                c, _, info = random_curve(rng, m)
+                path = os.path.join(tmp, 'setpart_%d_%d.csv' % (k, ci))
+                c.save(path)
+                with open(path) as f:
+                    rd = list(csv.reader(f))
+                header = rd[0]
+                for ln in rd[1:]:
+                    ln[header.index('curve_id')] = str(ids[ci])
+                    rows.append(ln)
+        except (ValueError, ZeroDivisionError):
+            continue
+        if header != DC_SET_COLUMNS:
+            items.append(('false', 'set header %r' % header))
+            continue
+        how = rng.choice(['blocks', 'shuffled', 'shuffled'])
+        if how == 'shuffled':
+            rng.shuffle(rows)
+        path = os.path.join(tmp, 'set_%d.csv' % k)
+        with open(path, 'w', newline='') as f:
+            csv.writer(f).writerows([header] + rows)
+        cellf = lambda cn, t: ('@CName FOps %d' % int(t)) if cn == 'curve_id' else dc_cell(cn, t)
+        table = '[%s]' % '; '.join('[%s]' % '; '.join(cellf(cn, t) for cn, t in zip(header, ln)) for ln in rows)
+        try:
+            loaded = DiffusionCurveSet.load(pathlib.Path(path)).diffusion_curves
+            ltxt = '(Some [%s])' % '; '.join(curve_text(c) for c in loaded)
+        except (ValueError, ZeroDivisionError, TypeError):
+            ltxt = 'None'
+        mix = '(mk_mix %s %s)' % (fl(m.first_component.molecular_weight), fl(m.second_component.molecular_weight))
+        items.append(('(set_close (load_set FOps noPP %s %s) %s)' % (mix, table, ltxt),
+                      'curve set: %d curves, ids %r, lines %s, %s' % (ncur, ids, how, 'raised' if ltxt == 'None' else 'loaded')))
+        key = 'set:%d:%s' % (ncur, how)
+        dist[key] = dist.get(key, 0) + 1
+        if sum(1 for s_ in samples if s_.get('kind') == 'set') < 1:
+            samples.append({'kind': 'set', 'curves': ncur, 'ids': ids, 'lines': how, 'first_csv_line': rows[0]})
 
 
 JKEYS = {'n': 'K_n', 'm': 'K_m', 'alpha': 'K_alpha', 'a': 'K_a', 'b': 'K_b', 'membrane_area': 'K_area',
@@ -319,6 +368,7 @@ def run(seed, ncases, timeout=600):
                 samples.append({'rows': n, 'units': units, 'is_safe': safe, 'first_csv_line': lines[0]})
         dist = {'process': len(items)}
         curve_items(rng, tmp, ncases, items, samples, dist)
+        set_items(rng, tmp, max(4, ncases // 3), items, samples, dist)
         json_items(rng, tmp, max(4, ncases // 2), items, samples, dist)
     finally:
         shutil.rmtree(tmp, ignore_errors=True)
